@@ -335,8 +335,8 @@ def shard_translate(seed, count):
 
 
 # ------------------------------------------------------------------------------------------------ long descriptors (direct)
-def ld_cell(acc, rng, hooked, prop='C15', unpriv_only=False, hyp=False):
-    cfgov = CFGS['v7-virt-secure'] if hyp else CFGS['v7-lpae']
+def ld_cell(acc, rng, hooked, prop='C15', unpriv_only=False, hyp=False, guest=False):
+    cfgov = CFGS['v7-virt-secure'] if (hyp or guest) else CFGS['v7-lpae']
     transient = rng.random() < 0.3
     if transient:
         # IMPLEMENTATION DEFINED choice in the configuration file: the transient cacheability hints of MAIRn are implemented
@@ -360,7 +360,8 @@ def ld_cell(acc, rng, hooked, prop='C15', unpriv_only=False, hyp=False):
             return 3 | nxt | ((rng.getrandbits(5) << 59) & ~((1 << 59) | (1 << 61)) if rng.random() < 0.3 else 0) | ((rng.getrandbits(5) << 59) if rng.random() < 0.05 else 0)
         return 3 | nxt | (rng.getrandbits(5) << 59 if rng.random() < 0.3 else 0)
     vas = [rng.getrandbits(32) for _ in range(3)] + [rng.randrange(0, 8) << 30 >> 0 & M32 | rng.getrandbits(20) for _ in range(3)]
-    cpu = target.new_cpu(cfgov, hooked, [(0, 0x100), TABLES])
+    devs = [(0, 0x100), TABLES] + ([S2DEV] if guest else [])
+    cpu = target.new_cpu(cfgov, hooked, devs)
     target.budget_cpu(cpu, hooked)
     # populate by walking the reference addressing for each VA with random choices of block / table / invalid at each level
     st_ = {'sctlr': 1 | (big << 25), 'ttbcr': (1 << 31) | t0sz | (t1sz << 16) | (rng.getrandbits(1) << 7 if rng.random() < 0.1 else 0) | (rng.getrandbits(1) << 23 if rng.random() < 0.1 else 0),
@@ -409,6 +410,14 @@ def ld_cell(acc, rng, hooked, prop='C15', unpriv_only=False, hyp=False):
             if 0 <= o <= TABLES[1] - 8 and image[o:o + 8] == bytes(8):
                 image[o:o + 8] = d.to_bytes(8, 'big' if big else 'little')
             break
+    if guest:
+        # the same stage-1 tables used by a Non-secure guest: every descriptor fetch and the output address go through generated stage-2 tables
+        hbig = rng.getrandbits(1)
+        image2, regs2 = s2_tables(rng, hbig, [0x20000, 0, 0x8000, base0, base1] + pool)
+        st_.update(regs2)
+        st_.update({'scr': 1, 'cpsr': gen.cpsr_value(m=gen.MODES[rng.choice(('svc', 'usr', 'irq'))]), 'hsctlr': (hbig << 25) | (rng.getrandbits(1) << 1),
+                    'hcr': 1 | (rng.getrandbits(1) << 2) | (rng.getrandbits(4) << 3), 'hsr': rng.getrandbits(32), 'hdfar': rng.getrandbits(32), 'hpfar': rng.getrandbits(28) << 4,
+                    'mem2': image2})
     st_['mem1'] = bytes(image)
     target.apply_state(cpu, st_)
     pre = target.snapshot(cpu)
@@ -419,7 +428,7 @@ def ld_cell(acc, rng, hooked, prop='C15', unpriv_only=False, hyp=False):
         if hyp:
             ispriv = True
         target.apply_state(cpu, {k_: pre[k_] for k_ in ('dfsr', 'dfar', 'hsr', 'hdfar', 'hpfar') if k_ in pre})
-        M = Machine(pre, [(0, 0x100), TABLES], cfg, hooked)
+        M = Machine(pre, devs, cfg, hooked)
         try:
             pa, mt = mmu.translate_v(M, va, ispriv, iswrite, 4, True, want_attrs=True)
             ref = ('ok', pa, mt)
@@ -429,6 +438,8 @@ def ld_cell(acc, rng, hooked, prop='C15', unpriv_only=False, hyp=False):
                 ref = ('abort', ab.kind, ab.extra.get('level'))
             except NotImpl:
                 ref = ('notimpl', ab.kind, None)
+            except Skip as e:
+                ref = ('skip', str(e), None)
         except (Unpred, Skip) as e:
             ref = ('skip', str(e), None)
         try:
@@ -441,12 +452,12 @@ def ld_cell(acc, rng, hooked, prop='C15', unpriv_only=False, hyp=False):
         except Exception as e:
             got = ('notimpl', repr(e), None) if target.escape_ok(e) else ('host-error', repr(e), None)
         post = target.snapshot(cpu, False)
-        acc.case(ref[0] != 'skip', ('ld', hooked, hyp, bytes(image), st_['ttbcr'], va, ispriv, iswrite), cls=('hyp-ld:' if hyp else 'ld:') + ref[0] + (':' + str(ref[1]) + str(ref[2] or '') if ref[0] == 'abort' else ''),
+        acc.case(ref[0] != 'skip', ('ld', hooked, hyp, bytes(image), st_['ttbcr'], va, ispriv, iswrite), cls=('hyp-ld:' if hyp else 'guest-ld:' if guest else 'ld:') + ref[0] + (':' + str(ref[1]) + str(ref[2] or '') if ref[0] == 'abort' else ''),
                  sample=lambda: {'T0SZ': t0sz, 'T1SZ': t1sz, 'va': '%#x' % va, 'reference': list(ref), 'hooked': hooked})
         if ref[0] == 'skip':
             acc.excluded += 1
             if got[0] in ('host-error', 'hang'):
-                acc.violation(prop + ':ld:' + got[0], {'ld': True, 'hyp': hyp, 'transient': transient, 'hooked': hooked, 'state': jsonable_state(st_), 'va': va, 'ispriv': ispriv, 'iswrite': iswrite}, {'got': list(got)})
+                acc.violation(prop + ':ld:' + got[0], {'ld': True, 'hyp': hyp, 'guest': guest, 'transient': transient, 'hooked': hooked, 'state': jsonable_state(st_), 'va': va, 'ispriv': ispriv, 'iswrite': iswrite}, {'got': list(got)})
             continue
         bad = None
         if ref[0] == 'notimpl':
@@ -459,15 +470,16 @@ def ld_cell(acc, rng, hooked, prop='C15', unpriv_only=False, hyp=False):
             if dd:
                 bad = {'state(expected,observed)': e1.fmt_diff(dd), 'reference': list(ref)}
         if bad:
-            acc.violation(prop + (':hyp-ld:' if hyp else ':ld:') + '%s-vs-%s' % (':'.join(str(x) for x in ref[:3] if x is not None and not isinstance(x, int) or ref[0] == 'abort' and isinstance(x, int)), got[0] + (':' + str(got[1]) if got[0] == 'abort' else '')),
-                          {'ld': True, 'hyp': hyp, 'transient': transient, 'hooked': hooked, 'state': jsonable_state(st_), 'va': va, 'ispriv': ispriv, 'iswrite': iswrite}, bad)
+            acc.violation(prop + (':hyp-ld:' if hyp else ':guest-ld:' if guest else ':ld:') + '%s-vs-%s' % (':'.join(str(x) for x in ref[:3] if x is not None and not isinstance(x, int) or ref[0] == 'abort' and isinstance(x, int)), got[0] + (':' + str(got[1]) if got[0] == 'abort' else '')),
+                          {'ld': True, 'hyp': hyp, 'guest': guest, 'transient': transient, 'hooked': hooked, 'state': jsonable_state(st_), 'va': va, 'ispriv': ispriv, 'iswrite': iswrite}, bad)
 
 
 def shard_ld(seed, count):
     acc = Acc()
     rng = random.Random(seed)
     for _ in range(count):
-        ld_cell(acc, rng, rng.random() < 0.7, hyp=rng.random() < 0.3)
+        r_ = rng.random()
+        ld_cell(acc, rng, rng.random() < 0.7, hyp=r_ < 0.3, guest=0.3 <= r_ < 0.55)
     return acc
 
 
@@ -612,11 +624,11 @@ def _dispatch(fn, args):
 def replay(case, bucket=None):
     if 'va' in case:
         hooked = case['hooked']
-        cfgov = (CFGS['v7-virt-secure'] if case.get('hyp') else CFGS['v7-lpae']) if case.get('ld') else CFGS[case['cfgname']]
+        cfgov = (CFGS['v7-virt-secure'] if (case.get('hyp') or case.get('guest')) else CFGS['v7-lpae']) if case.get('ld') else CFGS[case['cfgname']]
         if case.get('transient'):
             cfgov = dict(cfgov, implementation_supports_transient=True)
         cfg = diff.full_cfg(cfgov)
-        devs = [(0, 0x100), TABLES] + ([S2DEV] if case.get('cfgname') == 'v7-virt-ns' else [])
+        devs = [(0, 0x100), TABLES] + ([S2DEV] if (case.get('cfgname') == 'v7-virt-ns' or case.get('guest')) else [])
         cpu = target.new_cpu(cfgov, hooked, devs)
         target.budget_cpu(cpu, hooked)
         st_ = {k: (bytes.fromhex(v) if k.startswith('mem') else v) for k, v in case['state'].items()}
